@@ -25,6 +25,9 @@ var impureCallPrefixes = []string{
 	"os.Getenv", "os.LookupEnv", "os.Environ", "os.Hostname", "os.Getpid", "runtime.NumGoroutine",
 }
 
+// process-local mutable caches: a view that consults one depends on the node's own query history
+var impureCallSubstrings = []string{"github.com/dgraph-io/ristretto"}
+
 // purityWalk returns the impurities reachable from fn. boundary lists callee-name
 // prefixes that are not entered (analysis boundary, e.g. the store interface), each
 // with a reason recorded by the caller. mapRangeOK names functions whose map ranges
@@ -74,6 +77,12 @@ func (c *Check) purityWalk(fn *ssa.Function, boundary []string, mapRangeOK map[s
 			for _, p := range impureCallPrefixes {
 				if strings.HasPrefix(cn, p) || strings.Contains(full, p) {
 					out = append(out, impurity{name, "calls " + cn, instrPos(c.W, ins)})
+					return
+				}
+			}
+			for _, p := range impureCallSubstrings {
+				if strings.Contains(cn, p) || strings.Contains(full, p) {
+					out = append(out, impurity{name, "uses the process-local cache: " + cn, instrPos(c.W, ins)})
 					return
 				}
 			}
@@ -204,7 +213,7 @@ func sortedMapRange(fn *ssa.Function) bool {
 // sharedWrites lists the stores / map updates, reachable from fn through module callees, whose
 // target is not an object created inside the function performing the store. A view function
 // that performs such a write can change what a later (or earlier-ordered) query returns.
-func (c *Check) sharedWrites(fn *ssa.Function, boundary []string) ([]impurity, []string) {
+func (c *Check) sharedWrites(fn *ssa.Function, boundary []string, pkgOnly string) ([]impurity, []string) {
 	seen := map[*ssa.Function]bool{}
 	var out []impurity
 	var visited []string
@@ -256,6 +265,15 @@ func (c *Check) sharedWrites(fn *ssa.Function, boundary []string) ([]impurity, [
 	walk = func(f *ssa.Function) {
 		if f == nil || seen[f] || !inModule(f) || len(f.Blocks) == 0 {
 			return
+		}
+		if pkgOnly != "" {
+			pf := f
+			for pf.Parent() != nil {
+				pf = pf.Parent()
+			}
+			if pf.Pkg == nil || !strings.HasSuffix(pf.Pkg.Pkg.Path(), "/"+pkgOnly) {
+				return
+			}
 		}
 		seen[f] = true
 		name := shortName(f)
@@ -326,4 +344,25 @@ func exprTextSafe(fn *ssa.Function, v ssa.Value) string {
 		return "captured " + fv.Name()
 	}
 	return v.Name() + ":" + typeShort(v.Type())
+}
+
+// NoSharedWrites: fn and its callees inside package pkgOnly perform no store or map update on
+// memory they did not create (no memoisation in node/chain fields, no mutation of shared records).
+func (c *Check) NoSharedWrites(fn *ssa.Function, pkgOnly string, boundary []string, why string) bool {
+	if fn == nil {
+		return false
+	}
+	imp, visited := c.sharedWrites(fn, boundary, pkgOnly)
+	key := shortName(fn)
+	desc := fmt.Sprintf("%s and its %d callees in package %s write only to objects they allocate: %s", key, len(visited)-1, pkgOnly, why)
+	if len(imp) > 0 {
+		var parts []string
+		for _, i := range imp {
+			parts = append(parts, i.Fn+": "+i.What+" at "+i.Pos)
+		}
+		c.Fail("nowrites", key, desc, strings.Join(parts, "; "), c.W.Pos(fn.Pos()))
+		return false
+	}
+	c.OK("nowrites", key, desc, c.W.Pos(fn.Pos()))
+	return true
 }
